@@ -267,7 +267,11 @@ class UnitRegistry:
 
     def __deepcopy__(self, memodict=None):
         lut = copy.deepcopy(self.lut)
-        return type(self)(lut=lut)
+        # the table is complete: re-adding the default symbols would undo
+        # modifications of default symbols made through modify()
+        return type(self)(
+            lut=lut, add_default_symbols=False, unit_system=self.unit_system
+        )
 
 
 class _NonModifiableUnitRegistry(UnitRegistry):
